@@ -49,8 +49,9 @@ example : (∀ c ∈ [Chunk.buf [1, 0, 2, 0] 2, .buf [] 4], wellSized c) ∧
 /-- The full round trip: whenever the caller supplies no framing header and the request is accepted,
 the permissive head parser followed by the strict de-framer (exactly one of Content-Length / chunked, or
 neither with an empty body part) recovers exactly the body's bytes (str as UTF-8; files from their
-start offset, read in `blocksize` blocks; iterables with empty pieces; buffers with items of any
-width, see `C11_wide_buffer_ok`).  Hypotheses: a positive blocksize, and the object invariant of buffers
+start offset, read with `read(blocksize)` calls that may each return fewer items than asked for — `body`
+ranges over file-like bodies with EVERY read script, see `C11_read_loop_yields_all_data`; iterables with
+empty pieces; buffers with items of any width, see `C11_wide_buffer_ok`).  Hypotheses: a positive blocksize, and the object invariant of buffers
 (`WellSizedBody`: positive item size, a whole number of items — not a restriction on the item size);
 the method needs no hypothesis (`putrequest` refuses the empty method, see C10). -/
 theorem C11_payload_roundtrip (cfg : Cfg) (meth url : Str) (headers : List (Str × Str)) (body : Body) (ch : Bool)
@@ -74,8 +75,84 @@ theorem C11_payload_roundtrip (cfg : Cfg) (meth url : Str) (headers : List (Str 
       obtain ⟨kind, pay, hd, hpay⟩ := deframe_prepared hp h1 h2 hbs hw hok meth (urlOrSlash url)
       exact ⟨_, kind, pay, strictParse_prepared p meth url hrl hl _, hd, hpay⟩
 
-example : (serialize c11cfg (lit "PUT") (lit "/") [] (.file ⟨[1, 2, 3, 4, 5, 6], 1, .ok, .ok, false⟩) false).toOption.bind
+example : (serialize c11cfg (lit "PUT") (lit "/") [] (.file ⟨[[1, 2, 3, 4, 5, 6]], 1, .ok, .ok, false⟩) false).toOption.bind
     (fun w => (strictParse w).bind deframe) = some (.chunked, [2, 3, 4, 5, 6]) := by decide +kernel
+
+/-! ## file-like bodies whose `read()` may return short: every read script -/
+
+/-- a stream that delivers `[1,2,3,4] [5] [6,7,8,9] [10]`: with block size 4 the second `read(4)` is a
+short read in the middle of the data -/
+def c11Stream : FileB := ⟨[[1, 2, 3, 4], [5], [6, 7, 8, 9], [10]], 0, .ok, .ok, false⟩
+
+/-- what a read script can ever hand out is the concatenation of its pieces before the first empty one
+(an empty `read()` result is end-of-file) — for a script without empty piece that of all its pieces -/
+theorem C11_script_data (ps : List (List Nat)) :
+    scriptData ps = (ps.takeWhile fun p => !p.isEmpty).flatten ∧
+    ((∀ p ∈ ps, p ≠ []) → scriptData ps = ps.flatten) :=
+  ⟨scriptData_eq_takeWhile ps, scriptData_eq_flatten ps⟩
+
+example : (∀ p ∈ c11Stream.pieces, p ≠ []) ∧ scriptData c11Stream.pieces = [1, 2, 3, 4, 5, 6, 7, 8, 9, 10] := by
+  decide
+
+/-- The loop of `chunk_readable()` (`read(blocksize)` until the first empty result) over a file-like
+body with **any** read script, from any offset, with any positive block size — however short the
+individual reads are: the blocks it yields are non-empty, concatenate to ALL the data from the offset
+on, and the file is left at the end of the data.  (Induction over the reads.) -/
+theorem C11_read_loop_yields_all_data (f : FileB) (bs : Nat) (hbs : 0 < bs) :
+    (chunkReadable bs f).1.flatten = f.content.drop f.pos ∧
+    (∀ d ∈ (chunkReadable bs f).1, d ≠ []) ∧
+    (chunkReadable bs f).2 = { f with pos := max f.pos f.content.length } :=
+  ⟨(chunkReadable_spec hbs f).1, (chunkReadable_spec hbs f).2.2, (chunkReadable_spec hbs f).2.1⟩
+
+/-- non-vacuity: the reads really are short (4, 1, 4, 1 items with block size 4; a piece longer than
+the block size is cut), and a script may start in the middle of a piece -/
+example : (chunkReadable 4 c11Stream).1 = [[1, 2, 3, 4], [5], [6, 7, 8, 9], [10]] := by decide
+example : (chunkReadable 3 c11Stream).1 = [[1, 2, 3], [4], [5], [6, 7, 8], [9], [10]] := by decide
+example : (chunkReadable 4 { c11Stream with pos := 2 }).1 = [[3, 4], [5], [6, 7, 8, 9], [10]] := by decide
+/-- an empty piece is end-of-file: what follows it in the script is never handed out -/
+example : (chunkReadable 4 ⟨[[1, 2], [], [3]], 0, .ok, .ok, false⟩).1 = [[1, 2]] := by decide
+
+/-- The body loop of `request` over a file-like body (binary or text) with **any** read script: if
+nothing fails — only the UTF-8 encoding of a piece of a text stream can — what is written is, in chunked
+mode, the chunk framing of non-empty pieces whose concatenation is the payload (all the data from the
+file's offset on, str as UTF-8), which `C11_chunk_roundtrip` decodes to the payload; and otherwise the
+payload itself.  No Content-Length is recommended for such a body. -/
+theorem C11_stream_body_loop (f : FileB) (meth : Str) (bs : Nat) (hbs : 0 < bs) (chunked : Bool) :
+    ∃ cc cs, bodyToChunks (.file f) meth bs = .ok cc ∧ cc.chunks = some cs ∧ cc.contentLength = none ∧
+      ((sendChunks chunked cs).err = none →
+        ∃ ds : List Bytes, (∀ d ∈ ds, d ≠ []) ∧ payload (.file f) = some ds.flatten ∧
+          (sendChunks chunked cs).written = if chunked then frameData ds else ds.flatten) :=
+  file_body_loop f meth hbs chunked
+
+/-- … for a binary stream nothing can fail and every `read()` result is one chunk: the chunked body
+`request` writes (with the terminating chunk) is decoded by the strict chunked decoder to exactly the
+data from the file's offset on, for every read script -/
+theorem C11_stream_binary_dechunks (f : FileB) (hb : f.text = false) (meth : Str) (bs : Nat) (hbs : 0 < bs) :
+    ∃ cc cs, bodyToChunks (.file f) meth bs = .ok cc ∧ cc.chunks = some cs ∧
+      (sendChunks true cs).err = none ∧
+      (sendChunks true cs).written = frameData (chunkReadable bs f).1 ∧
+      dechunk (((sendChunks true cs).written ++ lastChunk).length + 1) ((sendChunks true cs).written ++ lastChunk)
+        = some (f.content.drop f.pos) := by
+  obtain ⟨cc, cs, h1, h2, _, h4, h5, h6, h7⟩ := file_body_loop_binary f hb meth hbs true
+  refine ⟨cc, cs, h1, h2, h4, by simpa using h5, ?_⟩
+  simp only [if_true] at h5
+  rw [h5, ← h6]
+  exact C11_chunk_roundtrip _ h7
+
+example : c11Stream.text = false ∧ 0 < 4 := by decide
+
+/-- non-vacuity of the round trip with a short read in the middle: the four reads (4, 1, 4, 1 bytes)
+are four chunks and the strict de-framer recovers all ten bytes -/
+example : (serialize c11cfg (lit "PUT") (lit "/") [] (.file c11Stream) false).toOption.bind
+    (fun w => (strictParse w).bind deframe) = some (.chunked, [1, 2, 3, 4, 5, 6, 7, 8, 9, 10]) := by decide +kernel
+
+example : (sendChunks true ((chunkReadable 4 c11Stream).1.map Chunk.bytes)).written
+    = frameData [[1, 2, 3, 4], [5], [6, 7, 8, 9], [10]] := by decide
+
+/-- a text stream with a short read: pieces are encoded one by one (`é` = C3 A9) -/
+example : (serialize c11cfg (lit "PUT") (lit "/") [] (.file ⟨[[97, 233], [98], [99, 100, 101, 102, 103]], 0, .ok, .ok, true⟩) false).toOption.bind
+    (fun w => (strictParse w).bind deframe) = some (.chunked, [97, 0xC3, 0xA9, 98, 99, 100, 101, 102, 103]) := by
+  decide +kernel
 
 /-- non-vacuity of `WellSizedBody` beyond byte-sized items: `array('H', [1, 2, 3])` -/
 example : WellSizedBody (.buffer [1, 0, 2, 0, 3, 0] 2) := by simp [WellSizedBody]
@@ -167,9 +244,9 @@ theorem C11_resend_identical_or_unrewindable_partial (lvl : Level) (cfg : Cfg) (
     | buffer b k => exact Or.inl ⟨trivial, rfl, rfl, Or.inl rfl⟩
   exact sendHistory_inv lvl cfg target chunked meth hs body hist body .none none hinv
 
-example : c11Replayable (.file ⟨[1, 2, 3], 1, .absent, .ok, false⟩) := by simp [c11Replayable]
+example : c11Replayable (.file ⟨[[1, 2, 3]], 1, .absent, .ok, false⟩) := by simp [c11Replayable]
 example : c11Replayable (.iter [.bytes [1], .str []] false) := rfl
-example : c11Rewindable (.file ⟨[1, 2, 3], 1, .ok, .ok, false⟩) := Or.inr ⟨_, rfl, rfl, rfl⟩
+example : c11Rewindable (.file ⟨[[1, 2, 3]], 1, .ok, .ok, false⟩) := Or.inr ⟨_, rfl, rfl, rfl⟩
 example : c11Rewindable (.iter [.bytes [1], .str []] false) := Or.inl rfl
 
 /-- … in particular a rewindable body is re-sent identically and the call never fails because of
@@ -199,7 +276,7 @@ theorem C11_resend_oneshot_witness :
 
 theorem C11_resend_no_tell_witness :
     let r := sendHistory .pool c11cfg (lit "/p") false [.redirectKeep, .ok]
-      (c11St0 (lit "PUT") (.file ⟨[1, 2, 3], 0, .ok, .absent, false⟩))
+      (c11St0 (lit "PUT") (.file ⟨[[1, 2, 3]], 0, .ok, .absent, false⟩))
     r.result = .ok () ∧ r.attempts.map c11PayloadOf = [some (.chunked, [1, 2, 3]), some (.chunked, [])] := by
   decide +kernel
 
@@ -207,14 +284,14 @@ theorem C11_resend_no_tell_witness :
 threaded to the follow-up request): the file is re-sent from its recorded position -/
 theorem C11_resend_manager_redirect_ok :
     let r := sendHistory .manager c11cfg (lit "/p") false [.redirectKeep, .ok]
-      (c11St0 (lit "PUT") (.file ⟨[1, 2, 3], 0, .ok, .ok, false⟩))
+      (c11St0 (lit "PUT") (.file ⟨[[1, 2, 3]], 0, .ok, .ok, false⟩))
     r.result = .ok () ∧ r.attempts.map c11PayloadOf = [some (.chunked, [1, 2, 3]), some (.chunked, [1, 2, 3])] := by
   decide +kernel
 
 /-- … also after retries inside the pool call and a second redirect, from a start offset -/
 example :
     let r := sendHistory .manager c11cfg (lit "/p") false [.redirectKeep, .readErr, .redirectKeep, .ok]
-      (c11St0 (lit "PUT") (.file ⟨[1, 2, 3], 1, .ok, .ok, false⟩))
+      (c11St0 (lit "PUT") (.file ⟨[[1, 2, 3]], 1, .ok, .ok, false⟩))
     r.result = .ok () ∧ r.attempts.map c11PayloadOf =
       [some (.chunked, [2, 3]), some (.chunked, [2, 3]), some (.chunked, [2, 3]), some (.chunked, [2, 3])] := by
   decide +kernel
@@ -222,15 +299,25 @@ example :
 /-- the same history at pool level re-sends the body identically -/
 example :
     let r := sendHistory .pool c11cfg (lit "/p") false [.redirectKeep, .readErr, .ok]
-      (c11St0 (lit "PUT") (.file ⟨[1, 2, 3], 1, .ok, .ok, false⟩))
+      (c11St0 (lit "PUT") (.file ⟨[[1, 2, 3]], 1, .ok, .ok, false⟩))
     r.result = .ok () ∧ r.attempts.map c11PayloadOf = [some (.chunked, [2, 3]), some (.chunked, [2, 3]), some (.chunked, [2, 3])] := by
+  decide +kernel
+
+/-- a stream with short reads (`c11Stream`, read 4 + 1 + 4 + 1) is re-sent in full after a 503 and a
+307, at manager level, from its recorded offset -/
+example :
+    let r := sendHistory .manager c11cfg (lit "/p") false [.retryStatus, .redirectKeep, .ok]
+      (c11St0 (lit "PUT") (.file { c11Stream with pos := 2 }))
+    r.result = .ok () ∧ r.attempts.map c11PayloadOf =
+      [some (.chunked, [3, 4, 5, 6, 7, 8, 9, 10]), some (.chunked, [3, 4, 5, 6, 7, 8, 9, 10]),
+       some (.chunked, [3, 4, 5, 6, 7, 8, 9, 10])] := by
   decide +kernel
 
 /-- the input on which the pool used to fail with a bare `ValueError` (303 followed with `body=None`
 but the recorded position kept): the follow-up is a body-less, unframed GET -/
 theorem C11_resend_pool_303_ok :
     let r := sendHistory .pool c11cfg (lit "/p") false [.redirect303, .ok]
-      (c11St0 (lit "POST") (.file ⟨[1, 2, 3], 0, .ok, .ok, false⟩))
+      (c11St0 (lit "POST") (.file ⟨[[1, 2, 3]], 0, .ok, .ok, false⟩))
     r.result = .ok () ∧ r.attempts.map (·.after303) = [false, true] ∧
       r.attempts.map c11PayloadOf = [some (.chunked, [1, 2, 3]), some (.unframed, [])] ∧
       (r.attempts.map fun a => (strictParse a.wire).map (·.method)) = [some (lit "POST"), some (lit "GET")] := by
@@ -240,14 +327,14 @@ theorem C11_resend_pool_303_ok :
 without `seek()`): the first re-send is refused with `UnrewindableBodyError`, nothing is re-sent -/
 theorem C11_resend_tell_without_seek_unrewindable :
     let r := sendHistory .pool c11cfg (lit "/p") false [.retryStatus, .ok]
-      (c11St0 (lit "PUT") (.file ⟨[1, 2, 3], 0, .absent, .ok, false⟩))
+      (c11St0 (lit "PUT") (.file ⟨[[1, 2, 3]], 0, .absent, .ok, false⟩))
     r.result = .error .unrewindableBody ∧ r.attempts.map c11PayloadOf = [some (.chunked, [1, 2, 3])] := by
   decide +kernel
 
 /-- a file whose `tell()` fails is refused on the first re-send -/
 example :
     (sendHistory .pool c11cfg (lit "/p") false [.retryStatus, .ok]
-      (c11St0 (lit "PUT") (.file ⟨[1, 2, 3], 0, .ok, .raises, false⟩))).result = .error .unrewindableBody := by
+      (c11St0 (lit "PUT") (.file ⟨[[1, 2, 3]], 0, .ok, .raises, false⟩))).result = .error .unrewindableBody := by
   decide +kernel
 
 end U3.Props
